@@ -89,13 +89,13 @@ def base_discovery(chk):
     eng.summaries['common_path_all'] = common_path_all
     st = {}
     chk.bounds['base_discovery'] = {'working_directories': CWDS, 'target_spellings': SPELLINGS, 'targets_per_command': '1..2',
-                                    '.redo_present_in': 'nowhere | /p | /p/d'}
+                                    '.redo_present_in': 'nowhere | /p | /p/d | both'}
     chk.assumptions.append('base discovery: REDO (the re-exec marker) is already set, so the PATH / helper-link set-up of Env::init is '
                            'skipped; directories are real (no symlinks); a `.redo` reached through a `..` spelling is not seen')
 
     def run():
         cwd = CWDS[eng.choose(len(CWDS), 'cwd')]
-        where = [(), ('/p',), ('/p/d',)][eng.choose(3, 'where .redo exists')]
+        where = [(), ('/p',), ('/p/d',), ('/p', '/p/d')][eng.choose(4, 'where .redo exists')]
         n = 1 + eng.choose(2, 'number of targets')
         ts = []
         for i in range(n):
@@ -105,6 +105,7 @@ def base_discovery(chk):
         if any(not (d == P or d.startswith(P + '/')) for d in dirs):
             raise PathDead()
         # an existing project: the property speaks about working directories and targets inside it
+        # (with nested state directories: inside the outermost one)
         if where and any(not (d == where[0] or d.startswith(where[0] + '/')) for d in dirs + [cwd]):
             raise PathDead()
         # the file name is symbolic (2 bytes, no '/', not starting with '.')
@@ -150,6 +151,7 @@ def base_discovery(chk):
             d = os.path.dirname(d)
         chk.goal('base: a fresh project entered from a subdirectory with a target above it', not where and cwd != P and any(x == P for x in dirs))
         chk.goal('base: .redo found above the working directory', bool(where) and where[0] != cwd and want == where[0])
+        chk.goal('base: a nested state directory below the common ancestor is not taken', len(where) == 2 and want == '/p' and cwd != '/p')
         wit['base'] = base
         wit['expected'] = want
         if os.path.normpath(base) != want or base != os.path.normpath(base):
@@ -177,14 +179,31 @@ def replay(scn, c):
     files = {'d/e/keep': '', 'default.do': 'echo built\n', 'd/default.do': 'echo built\n', 'd/e/default.do': 'echo built\n'}
     t0 = [t[:-1] + 'tt' for t in ts]
     pre = ''
-    if where:
-        # an earlier build made this directory the project base
-        pre = '(cd %s && redo --no-log seed.t >/dev/null 2>&1); ' % os.path.relpath(where[0], P)
+    for wd in sorted(where, key=len, reverse=True):
+        # earlier builds made these directories project bases (innermost first, so that each creates its own .redo)
+        pre += '(cd %s && redo --no-log seed.t >/dev/null 2>&1); ' % os.path.relpath(wd, P)
+    files['names.py'] = ('import sqlite3, sys\n'
+                         'for d in sys.argv[1:]:\n'
+                         '    try:\n'
+                         '        rows = sqlite3.connect(d + "/.redo/db.sqlite3").execute("select name from Files").fetchall()\n'
+                         '    except Exception as e:\n'
+                         '        rows = [("ERR %s" % e,)]\n'
+                         '    print("NAMES %s %s" % (d, " ".join(sorted(r[0] for r in rows if r[0].endswith("tt")))))\n')
     script = ('ROOT=$(pwd); %scd %s && redo --no-log %s >/dev/null 2>"$ROOT/first.err"; echo "exit $?"; cd "$ROOT"; '
-              'for d in $(find . -name .redo -type d | sort); do echo "STATE $(dirname $d)"; done') % (
+              'for d in $(find . -name .redo -type d | sort); do echo "STATE $(dirname $d)"; done; '
+              'python3 names.py $(find . -name .redo -type d | sort | xargs -n1 dirname)') % (
         pre, rel, ' '.join(t.replace('/p/', '"$ROOT"/') for t in t0))
     rc, out = scn.run(files, script, timeout=120)
     c['native_scenario'] = {'files': files, 'script': script}
     got = sorted(os.path.normpath(os.path.join(P, l.split(' ', 1)[1])) for l in out.split('\n') if l.startswith('STATE '))
     expect = sorted(set(list(where) + [want]))
-    return (got != expect), 'real binaries: from %s `redo %s` -> state directories %r, expected %r' % (cwd, ' '.join(t0), got, expect)
+    # which database received the record of the requested target(s)
+    recorded_in = []
+    for l in out.split('\n'):
+        if l.startswith('NAMES '):
+            parts = l.split(' ')
+            if len(parts) > 2 and any(parts[2:]):
+                recorded_in.append(os.path.normpath(os.path.join(P, parts[1])))
+    wrong_db = sorted(recorded_in) != [want]
+    return (got != expect or wrong_db), 'real binaries: from %s `redo %s` -> state directories %r (expected %r), target recorded in %r (expected %r)' % (
+        cwd, ' '.join(t0), got, expect, sorted(recorded_in), [want])
